@@ -1,5 +1,5 @@
 #![no_main]
 use libfuzzer_sys::fuzz_target;
 fuzz_target!(|data: &[u8]| {
-    vf_core::fuzz_one(data, "C08", &vf_store::c08::case_strategy(), vf_store::c08::run_case);
+    vf_core::fuzz_one(data, "C08", "crash_points", &vf_store::c08::case_strategy(), vf_store::c08::run_case);
 });
